@@ -61,6 +61,8 @@ AggReasons(r) ==
 EnumParamsReasons(r) ==
   LET p == BaseParams("enum", EnumParams(r.size - 1)) IN
   If(r.a # NumOfInt(p.a) \/ r.b # NumOfInt(p.b), "enum-interval")
+  \* make_uniform_enum_advanced with a user-supplied distribution policy: the same interval
+  \cup If("aa" \in DOMAIN r /\ (r.aa # NumOfInt(p.a) \/ r.ab # NumOfInt(p.b)), "enum-interval-advanced")
 
 ContainerReasons(r) ==
   LET size == Len(r.elems)
@@ -71,9 +73,20 @@ ContainerReasons(r) ==
           \cup If(r.isome /\ ip # None /\ [a |-> r.ia, b |-> r.ib] # BaseParams("plain", ip[1]), "indices-interval")
           \cup If(r.some # (size # 0), "container-empty-guard")
           \cup If(\E i \in 1..Len(r.wv) : ~(r.widx[i] \in 0..(size - 1)), "not-an-element")
-          \cup If(\E i \in 1..Len(r.wv) : r.widx[i] \in 0..(size - 1) /\ r.wv[i] # ContainerElement(r.elems, r.widx[i]), "element-value")
+          \cup If(\E i \in 1..Len(r.wv) :
+                    /\ (\A j \in 1..i : r.widx[j] \in 0..(size - 1))
+                    /\ r.wv[i] # ContainerElement(IF "after" \in DOMAIN r
+                                                  THEN ContainerAfterWrites(r.elems, SubSeq(r.widx, 1, i - 1), 900)
+                                                  ELSE r.elems, r.widx[i]), "element-value")
           \cup If(r.some /\ size # 0 /\ r.widx # r.sv, "not-transparent-values")
           \cup If(r.some /\ size # 0 /\ (r.wc # r.sc \/ r.wex # r.sex), "not-transparent-consumption")
+          \* the results are references INTO the container: values assigned through them arrive there
+          \cup If(/\ "after" \in DOMAIN r
+                   /\ (\A i \in 1..Len(r.widx) : r.widx[i] \in 0..(size - 1))
+                   /\ r.after # ContainerAfterWrites(r.elems, r.widx, 900), "not-a-reference")
+
+\* seed_from_chrono: only that a generator is constructed and stays within [min(), max()]
+ChronoReasons(r) == If(\E i \in 1..Len(r.wv) : ~NumBetween(r.wv[i], r.wmin, r.wmax), "engine-min-max")
 
 RawReasons(r) ==
   If(r.wv # r.sv, "not-transparent-values") \cup If(r.wmin # r.smin \/ r.wmax # r.smax, "engine-min-max")
@@ -110,14 +123,37 @@ SessionReasons(r) ==
           \cup If(\E i \in resets : ~FreshOk(ops, i, "w"), "reset-not-fresh")
           \cup If(\E i \in I : "lo" \in DOMAIN ops[i] /\ ops[i].w # <<>> /\ ~(ops[i].lo <= ops[i].w[1] /\ ops[i].w[1] <= ops[i].hi), "out-of-bounds")
 
-RandomReasons(r) ==
+RandomReasons0(r) ==
   CASE r.f = "draw" -> DrawReasons(r)
     [] r.f = "agg" -> AggReasons(r)
     [] r.f = "enum_params" -> EnumParamsReasons(r)
     [] r.f = "container" -> ContainerReasons(r)
     [] r.f = "raw" -> RawReasons(r)
+    [] r.f = "chrono" -> ChronoReasons(r)
     [] r.f = "engine" -> EngineReasons(r)
     [] r.f = "real" -> RealReasons(r)
     [] r.f = "session" -> SessionReasons(r)
     [] OTHER -> {"unknown-record-kind"}
+
+(* ---- scope.  Only what the statement of C20 covers may become a rejected event:
+     "an fcppt variate/distribution produces exactly the sequence that the wrapped standard
+      distribution produces from the wrapped engine with the same parameters, re-wrapped in the
+      requested type"                      -> values drawn, raw values consumed, exhaustion, the
+                                              engines themselves, the sequence after reset / copy
+     "uniform integer and enum distributions only yield values inside the closed interval they were
+      given and reach both ends"           -> out-of-bounds, end-not-reached, the enum interval
+     "uniform_container only yields elements of its container"   -> not-an-element, element-value
+     "the index/container factories return nothing for an empty container"  -> the factory reasons
+   Everything else is OBSERVED ONLY: its reasons are prefixed "obs:" (checks/c20.py counts them in
+   evidence coverage.observations and never rejects): accessors and operators that are not the
+   produced sequence (param(), min()/max(), ==, <<, the parameters read back), writing through the
+   references of uniform_container, seed_from_chrono, and every session that uses operator>>.   *)
+ObservedOnlyReasons ==
+  {"not-transparent-param_get", "not-transparent-minmax", "not-transparent-eq", "not-transparent-out",
+   "not-transparent-inout", "min-max", "parameter-translation", "not-a-reference"}
+
+UsesIstream(r) == r.f = "session" /\ \E i \in 1..Len(r.ops) : r.ops[i].op = "inout"
+
+RandomReasons(r) ==
+  {IF w # Pre /\ (w \in ObservedOnlyReasons \/ r.f = "chrono" \/ UsesIstream(r)) THEN "obs:" \o w ELSE w : w \in RandomReasons0(r)}
 =============================================================================
